@@ -126,6 +126,7 @@ func TestMakeReplays(t *testing.T) {
 
 	// ---- third audit wave ------------------------------------------------------------------
 	write("C14", "c14matrix", "list-field-beside-aggregate", "select split(value, ',') as e1, count(1) .. group by key was accepted and failed on the first pair", &c14MatrixCase{E: lib.Call("split", lib.Value(), lib.Str(",")), Aggr: true})
+	write("C14", "c14", "bare-name-beside-aggregate", "select nobody as l, count(1) .. group by key was refused by the repair of list fields beside aggregates", &c14Case{Raw: "select nobody as l, count(1) where key ^= 'a' group by key", Pairs: abc})
 	jm := func(m string) *lib.Node {
 		return lib.Field(lib.Call("json", lib.Str(`{"a": null, "o": {"x": "y"}}`)), m)
 	}
